@@ -148,6 +148,66 @@ def _unit_supplied(styles):
     return unit
 
 
+def native_inferred(dname, D, shape):
+    """print with D, parse WITHOUT a dialect (inference), compare the mapping; values include percent-escapes"""
+    samples = ["x", "ab", "g%41", "100%25", "a%3Bb", "é中", "%", "5%2", "q r" if D["keyval separator"] != " " else "qr"]
+    bad = []
+    for rot in range(len(samples)):
+        k = rot
+        m = {}
+        for ai, n in enumerate(shape):
+            m[A.KEYS[ai]] = [samples[(k + j) % len(samples)] + str(k + j) for j in range(n)]
+            k += n
+        f = F.Feature(seqid="c", source="s", featuretype="t", start=1, end=2, attributes={kk: list(vv) for kk, vv in m.items()}, dialect=dict(D))
+        line = str(f)
+        try:
+            g = F.feature_from_line(line)
+            got = {kk: list(vv) for kk, vv in g.attributes.items()}
+            h = F.Feature(attributes=line.split("\t")[8])
+            got2 = {kk: list(vv) for kk, vv in h.attributes.items()}
+        except Exception as ex:
+            bad.append({"line": line, "raised": repr(ex)})
+            continue
+        if got != m or got2 != m:
+            bad.append({"mapping": m, "line": line, "feature_from_line": got, "Feature(attributes=str)": got2})
+    return {"inputs": {"dialect": dname, "shape": shape}, "observed": bad[:2], "violates": bool(bad)}
+
+
+def unit_inferred_gtf(U):
+    """GTF-style dialects have no escaping: a value (free of ';', '"', ',' and control characters, but possibly holding
+    '%XX') printed with the dialect and parsed with NO dialect supplied (inference) comes back unchanged"""
+    for dname, D in A.dialects():
+        if dname.split("|")[0] != 'k "v"' or "notrail" in dname and not U.thorough and "rep" not in dname.split("|")[-1]:
+            continue
+        for shape in ((1,), (1, 1), (2, 1)):
+            if D["repeated keys"] and max(shape) < 2 and not U.thorough:
+                continue
+            it = Interp()
+            A.install(it)
+
+            def run(ctx, D=D, shape=shape):
+                items = []
+                for ai, n in enumerate(shape):
+                    vals = [supplied_value("v%d_%d" % (ai, j), D) for j in range(n)]
+                    for v in vals:
+                        for c in v.light_constraints():
+                            ctx.assume(c)
+                    items.append((A.KEYS[ai], vals))
+                s = A.enc(items, D)
+                ctx.stash.update(items=items)
+                return it.call(P._split_keyvals, [s], {})
+            base = "C08.inferred[%s,%s]" % (dname, "x".join(map(str, shape)))
+            replay = lambda mm, dname=dname, D=D, shape=shape: native_inferred(dname, D, shape)
+            for p in U.explore(run, it):
+                if p.kind != "return":
+                    U.prove(base + ".noraise#p%d" % p.index, "parsing raises nothing (got %r)" % (p.value,), p.pc, z3.BoolVal(False), {}, replay=replay)
+                    continue
+                q, d2 = p.value
+                ok = A.same_items(q, p.ctx.stash["items"]) and isinstance(d2, dict) and d2.get("fmt") == "gtf"
+                U.prove(base + ".inverse#p%d" % p.index, "_split_keyvals(enc(m, D)) with the dialect inferred == m (values verbatim: no percent-decoding in a GTF-style column) and the inferred format is gtf", [],
+                        z3.BoolVal(bool(ok)), {}, replay=replay)
+
+
 def unit_nine_columns(U):
     """str(Feature(attributes=dict, dialect=D)) is nine tab-separated columns plus the extra columns"""
     it = Interp()
@@ -176,7 +236,7 @@ def unit_nine_columns(U):
                         z3.BoolVal(bool(ok)), {}, replay=lambda mm, dname=dname, D=D: native_supplied(dname, D, (1, 2)))
 
 
-UNITS = [("quoter", unit_quoter), ("supplied.kv", _unit_supplied(("k=v", 'k="v"'))), ("supplied.sp", _unit_supplied(('k "v"', "k v"))), ("nine_columns", unit_nine_columns)]
+UNITS = [("quoter", unit_quoter), ("supplied.kv", _unit_supplied(("k=v", 'k="v"'))), ("supplied.sp", _unit_supplied(('k "v"', "k v"))), ("nine_columns", unit_nine_columns), ("inferred.gtf", unit_inferred_gtf)]
 try:
     from standins import C08 as _S
     UNITS = UNITS + list(_S.UNITS)
